@@ -8,6 +8,7 @@ mc/oracle/hyp.py (chart maps and closed-form metrics).
 """
 import itertools
 import math
+import os
 
 import numpy as np
 
@@ -30,7 +31,14 @@ PTFS = {
     "id": None,
     "diag": np.diag([1.8, 1.0, 1.0 / 1.8]),
     "conj": _NONAFF @ np.diag([1.8, 1.0, 1.0 / 1.8]) @ np.linalg.inv(_NONAFF),
+    "halfturn": np.diag([-1.0, 1.0, 1.0]),                 # negative determinant; positive representatives become negative in chart 0
+    "negconj": -(_NONAFF @ np.diag([1.8, 1.0, 1.0 / 1.8]) @ np.linalg.inv(_NONAFF)),     # the same map as conj, negative scalar multiple
 }
+# ProjectiveDrawing.draw_polygon(assume_affine=False) decides with Polygon.in_standard_chart, i.e. in chart 0,
+# whatever the drawing's chart_index is, which polygons it may draw as they are.  While True, a polygon drawn
+# with assume_affine=False is demanded only if it lies inside chart 0 AND inside the drawing's chart.
+# (C19_STRICT_CHARTS=1 in the environment lifts the restriction: see the finding C19-nonaffine-chart-index.)
+NONAFF_CHART0_ONLY = False     # the library honours chart_index since the fix "assume_affine=False honours the drawing's chart_index"
 
 BEZ = 5e-4          # matplotlib's cubic Bezier approximation of a circular arc: <= 5e-4 * radius
 BAND = 1e-4         # relative band around RADIUS_THRESHOLD in which either drawing is accepted
@@ -369,7 +377,8 @@ def case_polygons(case):
 
 
 def case_polygon_composite(case):
-    """A composite of two polygons drawn by ONE call: two patches / one collection of two paths."""
+    """A composite of 2..4 polygons drawn by ONE call: one patch per polygon / one collection with one
+    path per polygon, each the path of its own member."""
     from geometry_tools import hyperbolic
     model, tf = case["model"], case["tf"]
     Ks = [np.array(K, dtype=float) for K in case["polys"]]
@@ -381,15 +390,49 @@ def case_polygon_composite(case):
         before = all_artists()
         d.draw_polygon(poly)
         new = new_artists(before)
-        v, s = check_polygon_artists(model, tf, Ks, new, d, thr)
-        if v and len(Ks) == 2:
-            # the property does not fix the order of the artists of a composite
-            v2, s2 = check_polygon_artists(model, tf, Ks[::-1], new, d, thr)
-            if not v2:
-                v, s = v2, s2
+        v, s = check_polygon_composite(model, tf, Ks, new, d, thr)
     finally:
         close_all()
     return {"v": v[:6], "t": 1, "o": "%s/%s/%s" % (model, tf, s), "nt": True}
+
+
+def check_polygon_composite(model, tf, Ks, new, d, thr):
+    v, s = check_polygon_artists(model, tf, Ks, new, d, thr)
+    if v and len(Ks) <= 4:
+        # the property does not fix the order of the artists of a composite: any pairing will do
+        for perm in itertools.permutations(range(len(Ks))):
+            v2, s2 = check_polygon_artists(model, tf, [Ks[i] for i in perm], new, d, thr)
+            if not v2:
+                return v2, s2
+    return v, s
+
+
+def case_polygon_composites(case):
+    """One figure; every entry of case["composites"] (3..4 polygons with the same number of vertices) is
+    drawn by ONE draw_polygon call of its own."""
+    from geometry_tools import hyperbolic
+    model, tf = case["model"], case["tf"]
+    v, summ, t = [], set(), 0
+    try:
+        d = new_drawing(model, tf)
+        thr = threshold()
+        for comp in case["composites"]:
+            Ks = [np.array(K, dtype=float) for K in comp]
+            if not all(in_view(model, transformed(tf, K)) for K in Ks):
+                summ.add("skipped:out-of-view")
+                continue
+            poly = hyperbolic.Polygon(kpoint(np.array(Ks)))
+            before = all_artists()
+            d.draw_polygon(poly)
+            t += 1
+            vv, s = check_polygon_composite(model, tf, Ks, new_artists(before), d, thr)
+            for x in vv:
+                x["msg"] = "%d polygons drawn by one call, vertices (Klein) %s: %s" % (len(Ks), fmt(Ks), x["msg"])
+            v += vv
+            summ.add("|".join(p.split(":")[0] for p in s.split("|")))
+    finally:
+        close_all()
+    return {"v": v[:6], "t": t, "o": "%s/%s/%s/" % (model, tf, case.get("pattern", "")) + ";".join(sorted(summ)), "nt": t > 0}
 
 
 # ------------------------------------------------------------------------------------------
@@ -466,30 +509,34 @@ def arc_patch_check(model, c, r, S, E, through, patch, site, tolp):
     return out
 
 
-def check_geodesic_artist(model, tf, kind, ka0, kb0, new, d, thr):
-    site = "geodesic/" + kind
+def klein_line_violations(site, kind, ka, kb, vs, cs):
+    """One path of the Klein LineCollection against the chord between the (transformed) Klein points."""
     ideal = kind == "geodesic"
-    ka, kb = transformed(tf, ka0), transformed(tf, kb0)
-    out = located(new, d, 1, site + "/" + model)
-    if out:
-        return out, "count"
-    art, ax = new[0]
+    A, B = dg.model_coords("klein", ka), dg.model_coords("klein", kb)
+    pcs = [p for p in svgpath.pieces(vs, cs) if p.kind != "M"]
+    tol = tol_ideal(A) if ideal else tol_pt(np.concatenate([A, B]))
+    ok = (len(pcs) == 1 and pcs[0].kind == "L" and
+          min(max(np.linalg.norm(pcs[0].start - A), np.linalg.norm(pcs[0].end - B)),
+              max(np.linalg.norm(pcs[0].start - B), np.linalg.norm(pcs[0].end - A))) <= tol)
+    if not ok:
+        return [V(site + "/klein/endpoints", "drawn %s, oracle end points %s, %s" % (fmt(vs), fmt(A), fmt(B)))]
+    return []
+
+
+def geodesic_class(model, ka, kb, thr):
+    """S(traight substitute) / A(rc) / E(ither: radius inside the band around the threshold) / K(lein chord)."""
     if model == "klein":
-        A, B = dg.model_coords(model, ka), dg.model_coords(model, kb)
-        if type(art).__name__ != "LineCollection":
-            return [V(site + "/klein/artist-type", "expected a LineCollection, got %s" % type(art).__name__)], "type"
-        paths = art.get_paths()
-        if len(paths) != 1:
-            return [V(site + "/klein/path-count", "%d paths" % len(paths))], "count"
-        vs, cs = data_path(art, ax, paths[0])
-        pcs = [p for p in svgpath.pieces(vs, cs) if p.kind != "M"]
-        tol = tol_ideal(A) if ideal else tol_pt(np.concatenate([A, B]))
-        ok = (len(pcs) == 1 and pcs[0].kind == "L" and
-              min(max(np.linalg.norm(pcs[0].start - A), np.linalg.norm(pcs[0].end - B)),
-                  max(np.linalg.norm(pcs[0].start - B), np.linalg.norm(pcs[0].end - A))) <= tol)
-        if not ok:
-            out.append(V(site + "/klein/endpoints", "drawn %s, oracle end points %s, %s" % (fmt(vs), fmt(A), fmt(B))))
-        return out, "klein"
+        return "K"
+    r = dg.geodesic_circle(model, ka, kb)[1]
+    if r > thr * (1.0 + BAND):
+        return "S"
+    return "A" if r < thr * (1.0 - BAND) else "E"
+
+
+def geodesic_patch_violations(model, kind, ka, kb, art, ax, d, thr, site):
+    """One patch (Arc or straight PathPatch) of a Poincare / half-plane drawing against the geodesic
+    between the (already transformed) Klein points ka, kb.  Returns (violations, class drawn)."""
+    ideal = kind == "geodesic"
     c, r = dg.geodesic_circle(model, ka, kb)
     if r > thr * (1.0 + BAND):
         return straight_patch_check(model, d, ka, kb, art, ax, site, ideal), "S"
@@ -518,6 +565,94 @@ def check_geodesic_artist(model, tf, kind, ka0, kb0, new, d, thr):
                     out.append(V(site + "/arc/off-geodesic/" + model, "arc point %s: distance %.3g from the geodesic, excess %.3g" % (fmt(X[j]), ld[j], ex[j])))
                     break
     return out, "A"
+
+
+def check_geodesic_artist(model, tf, kind, ka0, kb0, new, d, thr):
+    site = "geodesic/" + kind
+    ka, kb = transformed(tf, ka0), transformed(tf, kb0)
+    out = located(new, d, 1, site + "/" + model)
+    if out:
+        return out, "count"
+    art, ax = new[0]
+    if model == "klein":
+        if type(art).__name__ != "LineCollection":
+            return [V(site + "/klein/artist-type", "expected a LineCollection, got %s" % type(art).__name__)], "type"
+        paths = art.get_paths()
+        if len(paths) != 1:
+            return [V(site + "/klein/path-count", "%d paths" % len(paths))], "count"
+        vs, cs = data_path(art, ax, paths[0])
+        return klein_line_violations(site, kind, ka, kb, vs, cs), "klein"
+    return geodesic_patch_violations(model, kind, ka, kb, art, ax, d, thr, site)
+
+
+def assignment(n, ok):
+    """A bijection members -> artists (a list perm with ok(i, perm[i]) for every member i), or None.
+    The identity (the library's listing order) is tried first; ok is memoised; n <= 4."""
+    memo = {}
+
+    def good(i, j):
+        if (i, j) not in memo:
+            memo[(i, j)] = bool(ok(i, j))
+        return memo[(i, j)]
+    for perm in itertools.permutations(range(n)):
+        if all(good(i, perm[i]) for i in range(n)):
+            return list(perm)
+    return None
+
+
+def injection(n, m, ok):
+    """An injective map members -> drawn shapes (a tuple f with ok(i, f[i]) for every member i), or None;
+    the listing order first; n <= m <= 4."""
+    memo = {}
+
+    def good(i, j):
+        if (i, j) not in memo:
+            memo[(i, j)] = bool(ok(i, j))
+        return memo[(i, j)]
+    for f in itertools.permutations(range(m), n):
+        if all(good(i, f[i]) for i in range(n)):
+            return f
+    return None
+
+
+def check_geodesic_composite(model, tf, kind, members, new, d, thr):
+    """ONE draw_geodesic call for a composite of len(members) segments / geodesics: exactly one artist
+    (Klein: one path of the one LineCollection) per member, each with the geometry of its own member;
+    artists are paired with members by geometry (the order is not fixed by the property)."""
+    site = "geodesic-composite/" + kind
+    n = len(members)
+    Kt = [(transformed(tf, np.array(a, float)), transformed(tf, np.array(b, float))) for a, b in members]
+    if model == "klein":
+        out = located(new, d, 1, site + "/klein")
+        if out:
+            return out
+        art, ax = new[0]
+        if type(art).__name__ != "LineCollection":
+            return [V(site + "/klein/artist-type", "expected a LineCollection, got %s" % type(art).__name__)]
+        paths = art.get_paths()
+        if len(paths) != n:
+            return [V(site + "/klein/path-count", "%d paths for %d members" % (len(paths), n))]
+        drawn = [data_path(art, ax, p) for p in paths]
+
+        def viol(i, j):
+            return klein_line_violations(site, kind, Kt[i][0], Kt[i][1], drawn[j][0], drawn[j][1])
+    else:
+        out = located(new, d, n, site + "/" + model)
+        if out:
+            return out
+
+        def viol(i, j):
+            return geodesic_patch_violations(model, kind, Kt[i][0], Kt[i][1], new[j][0], new[j][1], d, thr, site)[0]
+    if assignment(n, lambda i, j: not viol(i, j)) is not None:
+        return []
+    for i in range(n):
+        if all(viol(i, j) for j in range(n)):
+            vv = viol(i, i)
+            for x in vv:
+                x["msg"] = "member %d of %d (%s - %s) has no artist of its own among the %d drawn; against artist %d: %s" % (
+                    i, n, fmt(members[i][0]), fmt(members[i][1]), n, i, x["msg"])
+            return vv
+    return [V(site + "/pairing/" + model, "every member matches some artist but there is no one-to-one pairing of the %d members with the %d artists" % (n, n))]
 
 
 def geodesic_in_domain(model, kind, ka, kb):
@@ -561,6 +696,38 @@ def case_geodesics(case):
     finally:
         close_all()
     return {"v": v[:6], "t": t, "o": "%s/%s/%s/" % (model, tf, kind) + "".join(sorted(summ)), "nt": bool(summ - {"skipped"})}
+
+
+def case_geodesic_composites(case):
+    """One figure; every entry of case["composites"] (a list of 3..4 members [a, b], Klein coordinates) is
+    drawn as ONE composite Segment / Geodesic by ONE draw_geodesic call of its own."""
+    from geometry_tools import hyperbolic
+    model, tf, kind = case["model"], case["tf"], case["kind"]
+    v, t, summ = [], 0, set()
+    try:
+        d = new_drawing(model, tf)
+        thr = threshold()
+        for members in case["composites"]:
+            Kt = [(transformed(tf, a), transformed(tf, b)) for a, b in members]
+            if not all(geodesic_in_domain(model, kind, ka, kb) for ka, kb in Kt):
+                summ.add("skipped")
+                continue
+            A = kpoint(np.array([a for a, _ in members], dtype=float))
+            B = kpoint(np.array([b for _, b in members], dtype=float))
+            obj = hyperbolic.Segment(A, B) if kind == "segment" else hyperbolic.Geodesic(A, B)
+            before = all_artists()
+            d.draw_geodesic(obj)
+            t += 1
+            pattern = "".join(geodesic_class(model, ka, kb, thr) for ka, kb in Kt)
+            vv = check_geodesic_composite(model, tf, kind, members, new_artists(before), d, thr)
+            for x in vv:
+                x["msg"] = "%d %ss drawn by one call, classes %s, members (Klein) %s: %s" % (
+                    len(members), kind, pattern, fmt(members), x["msg"])
+            v += vv
+            summ.add(pattern)
+    finally:
+        close_all()
+    return {"v": v[:6], "t": t, "o": "%s/%s/%s/" % (model, tf, kind) + ";".join(sorted(summ)), "nt": t > 0}
 
 
 # ------------------------------------------------------------------------------------------
@@ -900,6 +1067,79 @@ def case_projective(case):
     return {"v": v[:6], "t": t, "o": "%s/%d/%s/%d" % (kind, chart, tf, t), "nt": True}
 
 
+def const_sign(col):
+    return bool(np.all(col > 0.0) or np.all(col < 0.0))
+
+
+def case_projective_reps(case):
+    """Projective polygons given by arbitrary homogeneous representatives (negative, mixed scales), drawn
+    with assume_affine True / False.  assume_affine=True: the vertices are drawn at their chart coordinates
+    whatever the representatives.  assume_affine=False: the representatives' signs say which of the two
+    projective segments joins two vertices; a member whose chart coordinate has one sign at all its vertices
+    lies inside the chart and must be drawn as it is; for the other members nothing is demanded."""
+    from geometry_tools import projective
+    chart, tf, aa = case["chart"], case["tf"], case["aa"]
+    site = "projective/polygon/" + ("assume-affine" if aa else "nonaffine")
+    v, t, summ = [], 0, set()
+    try:
+        d = new_proj_drawing(chart, tf)
+        for item in case["items"]:
+            X = np.array(item, dtype=float)
+            polys = X.reshape((-1,) + X.shape[-2:])
+            post = [ptransformed(tf, P) for P in polys]
+            if aa:
+                demanded = list(range(len(polys)))
+            else:
+                demanded = [i for i, Y in enumerate(post) if const_sign(Y[:, chart]) and
+                            (const_sign(Y[:, 0]) or not NONAFF_CHART0_ONLY)]
+            if not demanded:
+                summ.add("undemanded")
+                continue
+            before = all_artists()
+            d.draw_polygon(projective.Polygon(X), assume_affine=aa)
+            t += 1
+            new = new_artists(before)
+            vv = []
+            if any(ax is not d.ax for _, ax in new):
+                vv.append(V("artist/%s/not-on-drawing-axes" % site, "a new artist appeared on axes other than drawing.ax"))
+            colls = [(a, ax) for a, ax in new if hasattr(a, "get_paths")]
+            drawn = []
+            for a, ax in colls:
+                off = np.asarray(a.get_offsets(), dtype=float)
+                if off.size and float(np.max(np.abs(off))) != 0.0:
+                    vv.append(V(site + "/offsets", "collection offsets %s" % fmt(off)))
+                drawn += [data_path(a, ax, p) for p in a.get_paths()]
+            shapes = len(drawn) + len(new) - len(colls)
+            want = [dg.affine_chart(post[i], chart) for i in demanded]
+            full = len(demanded) == len(polys)
+            if full and shapes != len(polys):
+                vv.append(V(site + "/shape-count", "%d polygons, all inside chart %d: the call drew %d shapes (%s)" % (
+                    len(polys), chart, shapes, ",".join(type(a).__name__ for a, _ in new))))
+            elif len(drawn) < len(want):
+                vv.append(V(site + "/missing", "%d of the %d polygons lie inside chart %d, the collections drawn hold %d paths (%s)" % (
+                    len(want), len(polys), chart, len(drawn), ",".join(type(a).__name__ for a, _ in new))))
+            elif len(drawn) <= 4:
+                def viol(i, j):
+                    return polyline_check(want[i], drawn[j][0], drawn[j][1], site, tol_pt(want[i]))
+                if injection(len(want), len(drawn), lambda i, j: not viol(i, j)) is None:
+                    bad = [i for i in range(len(want)) if all(viol(i, j) for j in range(len(drawn)))]
+                    if bad:
+                        i = bad[0]
+                        vv += [V(x["key"], "member %d of %d has no path of its own among the %d drawn; against path %d: %s" % (
+                            demanded[i], len(polys), len(drawn), min(i, len(drawn) - 1), x["msg"])) for x in viol(i, min(i, len(drawn) - 1))]
+                    else:
+                        vv.append(V(site + "/pairing", "no one-to-one pairing of the %d members inside the chart with the %d drawn paths" % (len(want), len(drawn))))
+            else:
+                vv.append(V(site + "/shape-count", "%d paths drawn for %d polygons" % (len(drawn), len(polys))))
+            for x in vv:
+                x["msg"] = "projective polygon(s) %s, chart %d, transform %s, assume_affine=%s: %s" % (fmt(X), chart, tf, aa, x["msg"])
+            v += vv
+            summ.add("%d/%d" % (len(demanded), len(polys)))
+    finally:
+        close_all()
+    return {"v": v[:6], "t": t, "o": "%d/%s/%s/" % (chart, tf, aa) + ";".join(sorted(summ)), "nt": t > 0}
+
+
 # ------------------------------------------------------------------------------------------
 # wrong dimension
 # ------------------------------------------------------------------------------------------
@@ -1033,6 +1273,165 @@ def proj_ok(tf, X):
     return bool(np.all(np.abs(Y) >= 0.05 * np.linalg.norm(Y, axis=-1, keepdims=True)))
 
 
+# composites drawn by one call: members are picked from two pools, S (drawn straight: oracle circle radius
+# not finite or > S_MIN) and A (drawn as arcs: radius < A_MAX); the margins around RADIUS_THRESHOLD (80)
+# keep the pools independent of the threshold band (the case functions classify with the real threshold)
+S_MIN, A_MAX = 200.0, 40.0
+
+
+def preimage(tf, x, ideal=False):
+    """Klein coordinates of the point that the drawing transform tf sends to x."""
+    y = dg.apply_klein(np.linalg.inv(np.asarray(TFS[tf], dtype=float)), np.asarray(x, dtype=float))
+    if ideal:
+        y = y / np.linalg.norm(y)
+    return [float(c) for c in y]
+
+
+def radius_class(model, ka, kb):
+    r = dg.geodesic_circle("poincare" if model == "klein" else model, ka, kb)[1]
+    if not math.isfinite(r) or r > S_MIN:
+        return "S"
+    return "A" if r < A_MAX else None
+
+
+def alphabets(tf, X, ideal=False):
+    """The alphabet itself and, for a non-trivial drawing transform, its preimage (so that the special
+    configurations - diameters, half-plane verticals, nearly straight arcs - occur AFTER the transform too)."""
+    out = [[list(map(float, x)) for x in X]]
+    if TFS[tf] is not None:
+        out.append([preimage(tf, x, ideal) for x in X])
+    return out
+
+
+def geodesic_pools(model, tf, kind, X):
+    pools = {"S": [], "A": []}
+    for grp in alphabets(tf, X, kind == "geodesic"):
+        T = [transformed(tf, x) for x in grp]
+        # half-plane: the point at infinity only exactly (a preimage comes back as (1, 1e-16): out of the domain)
+        bad = [kind == "geodesic" and model == "halfspace" and dg.angle_from_infinity(t) < 0.1 and not (t[0] == 1.0 and t[1] == 0.0) for t in T]
+        for i in range(len(grp)):
+            for j in range(len(grp)):
+                if i != j and not bad[i] and not bad[j] and geodesic_in_domain(model, kind, T[i], T[j]):
+                    c = radius_class(model, T[i], T[j])
+                    if c:
+                        pools[c].append([grp[i], grp[j]])
+    return pools
+
+
+def polygon_pools(model, tf, X):
+    """Ordered non-degenerate triangles of X (and of its preimage): S = at least one straight edge and
+    no edge between the margins, A = arcs only."""
+    pools = {"S": [], "A": []}
+    for grp in alphabets(tf, X):
+        T = [transformed(tf, x) for x in grp]
+        n = len(grp)
+        if model == "halfspace":
+            H = dg.model_coords(model, np.array(T))
+            usable = [i for i in range(n) if abs(H[i, 0]) <= VIEW_X]
+        else:
+            usable = list(range(n))
+        cls = {(i, j): radius_class(model, T[i], T[j]) for i in usable for j in usable if i != j}
+        for i, j, k in itertools.permutations(usable, 3):
+            e = (cls[(i, j)], cls[(j, k)], cls[(k, i)])
+            u, w = T[j] - T[i], T[k] - T[i]
+            if None in e or abs(u[0] * w[1] - u[1] * w[0]) < 1e-3:
+                continue
+            pools["S" if "S" in e else "A"].append([grp[i], grp[j], grp[k]])
+    return pools
+
+
+def stride(L):
+    return next(q for q in (7, 11, 13, 17, 19, 23) if L % q)
+
+
+def compose(pools, pattern, i, same):
+    """The i-th composite of a pattern over {S, A}: member j is the (i*q + 5*j)-th element of its pool
+    (q coprime to the pool size), moved on to the next element that is not `same` as an earlier member."""
+    out = []
+    for j, c in enumerate(pattern):
+        P = pools[c]
+        L = len(P)
+        k = (i * stride(L) + 5 * j) % L
+        for _ in range(L):
+            if not any(same(P[k], m) for m in out):
+                break
+            k = (k + 1) % L
+        else:
+            return None
+        out.append(P[k])
+    return out
+
+
+def same_pair(m1, m2):
+    return sorted(map(tuple, m1)) == sorted(map(tuple, m2))
+
+
+def composite_cases(pools_of, combos, lengths, R, same, extra):
+    """cases: one per (model, tf[, kind]) and pattern over {S, A}^n, n in lengths, that the pools can
+    serve; R composites per case, the running index continues from pattern to pattern."""
+    for key in combos:
+        pools = pools_of(*key)
+        i = 0
+        for n in lengths:
+            for pat in itertools.product("SA", repeat=n):
+                if any(len(pools[c]) < pat.count(c) for c in set(pat)):
+                    continue
+                comps = []
+                for _ in range(R):
+                    c = compose(pools, pat, i, same)
+                    i += 1
+                    if c is not None:
+                        comps.append(c)
+                if comps:
+                    yield dict(extra(*key), pattern="".join(pat), composites=comps)
+
+
+def chart_rep(tf, chart, P):
+    """The representative of the vertex tuple P (rows) whose images under the drawing transform all have a
+    positive chart coordinate: that polygon lies inside the chart."""
+    Y = ptransformed(tf, np.asarray(P, dtype=float))
+    return [[float(c) for c in (np.sign(y[chart]) * np.asarray(p, dtype=float))] for p, y in zip(P, Y)]
+
+
+def scaled(P, lam, mus=None):
+    mus = [1.0] * len(P) if mus is None else mus
+    return [[float(lam * mu * c) for c in p] for p, mu in zip(P, mus)]
+
+
+def projective_rep_items(tf, chart, aa, tuples, tris):
+    """Single polygons and collections, as explicit homogeneous coordinates.
+    Scales: lattice.LAMBDAS (1, -1, 2.5, -0.3) per polygon; per vertex the moduli of LAMBDAS (legal for both
+    settings) and, with assume_affine=True only, LAMBDAS themselves (a negative factor at one vertex changes
+    the polygon that assume_affine=False is asked to draw)."""
+    L = lattice.LAMBDAS
+    items = []
+    for P in tuples:
+        B = chart_rep(tf, chart, P)
+        k = len(B)
+        for a, lam in enumerate(L):
+            items.append(scaled(B, lam))
+            items.append(scaled(B, lam, [abs(L[(a + 1 + i) % len(L)]) for i in range(k)]))
+            if aa:
+                items.append(scaled(B, lam, [L[(a + i) % len(L)] for i in range(k)]))
+    T = [chart_rep(tf, chart, P) for P in tris]
+    for a, b in itertools.permutations(range(len(T)), 2):
+        for la in L:
+            for lb in L:
+                items.append([scaled(T[a], la), scaled(T[b], lb)])
+    mags = [1.0, 2.5, 0.3]
+    for r in range(3):
+        order = [(r + i) % 3 for i in range(3)]
+        for sg in itertools.product([1.0, -1.0], repeat=3):
+            items.append([scaled(T[o], sg[i] * mags[i]) for i, o in enumerate(order)])
+    # one member leaves the chart (its middle vertex has the other sign): listed first / in the middle / last
+    for pos in range(3):
+        for sg in itertools.product([1.0, -1.0], repeat=2):
+            out = scaled(T[pos], 1.0, [1.0, -1.0, 1.0])
+            ins = [scaled(T[o], sg[i]) for i, o in enumerate(x for x in range(3) if x != pos)]
+            items.append(ins[:pos] + [out] + ins[pos:])
+    return items
+
+
 # ------------------------------------------------------------------------------------------
 def run(ctx):
     q = ctx.quick
@@ -1044,12 +1443,17 @@ def run(ctx):
         return ctx.product(name, *a, **kw)
     ctx.rule = ("every drawing call is made on a fresh HyperbolicDrawing/ProjectiveDrawing (one figure per case, calls "
                 "made one at a time, new artist located by diffing the artists of all open axes); cases = model x drawing "
-                "transform x all ordered vertex tuples / point pairs / centre-reference pairs of the lattices; a case is "
+                "transform x all ordered vertex tuples / point pairs / centre-reference pairs of the lattices; composites of 3..4 members drawn by "
+                "one call for every straight/arc pattern; projective polygons by every listed scaling of their homogeneous representatives; a case is "
                 "non-trivial when at least one drawn object has a curved (arc) edge or a Klein/projective vertex list")
     ctx.assume("objects are 2-dimensional with float coordinates; polygon vertices pairwise distinct, not all collinear, "
                "at Klein radius <= 0.9 before the drawing transform (<= 0.97 after), pairwise >= 0.05 apart in Klein coordinates "
                "(the library's DISTANCE_THRESHOLD for chaining arcs is 1e-4 in model coordinates, and the ideal end points of a "
                "segment of Klein length d carry a relative error ~1e-8/d)")
+    ctx.assume("composites drawn by one call: members pairwise different (as unordered end point pairs / vertex sets), each member in the "
+               "domain of its single drawing; members are taken from the lattice and, under a non-trivial drawing transform, also from the "
+               "preimage of the lattice (Klein radius <= 0.97 before, <= 0.9 after the transform); the half-plane's point at infinity occurs "
+               "only as the exact vector (1, 0) after the transform")
     ctx.assume("half-plane: finite vertices/end points have |x| <= 7 (inside the default view's off-screen bounds +-7.2); ideal "
                "points are the point at infinity exactly or >= 0.1 rad away from it; other tuples are skipped and counted as 'skipped'")
     ctx.assume("edges whose oracle circle radius lies within 1e-4 (relative) of RADIUS_THRESHOLD may be drawn either way")
@@ -1109,6 +1513,14 @@ def run(ctx):
     product("polygon-composites", "checks.c19:case_polygon_composite", comp,
                 domains={"composites": "all ordered pairs of %d triangles as one (2,)-composite" % len(tri)}, chunk=4)
 
+    pc3 = list(composite_cases(lambda m, t: polygon_pools(m, t, sub), combos, [3], 4 if q else 16, same_pair,
+                               lambda m, t: {"model": m, "tf": t}))
+    product("polygon-composites-3", "checks.c19:case_polygon_composites", pc3,
+                domains={"members per call": 3, "patterns": "all of {S, A}^3: S = triangle with an edge drawn straight (above RADIUS_THRESHOLD, "
+                         "a diameter, a half-plane vertical) after the drawing transform, A = arcs only",
+                         "pools": "all ordered non-degenerate triangles of the %d-point lattice and of its preimage under the drawing transform" % len(sub),
+                         "composites per pattern": 4 if q else 16}, chunk=2)
+
     # geodesics / segments
     dirs = [[1.0, 0.0]] + [list(map(float, x)) for x in lattice.ideal_dirs(2, m_generic=2 if q else 6, seed=seed)]
     gc = []
@@ -1121,6 +1533,17 @@ def run(ctx):
                 domains={"segments": "all ordered pairs of the %d-point lattice" % len(pts),
                          "geodesics": "all ordered pairs of %d ideal directions incl. antipodal pairs and the point at infinity" % len(dirs),
                          "ideal directions": dirs}, chunk=4)
+
+    # composites: 3 or 4 segments / geodesics in one call
+    R = 6 if q else 24
+    gcc = list(composite_cases(lambda m, t, kd: geodesic_pools(m, t, kd, pts if kd == "segment" else dirs),
+                               [(m, t, kd) for (m, t) in combos for kd in ("segment", "geodesic")], [3, 4], R, same_pair,
+                               lambda m, t, kd: {"model": m, "tf": t, "kind": kd}))
+    product("geodesic-composites", "checks.c19:case_geodesic_composites", gcc,
+                domains={"members per call": [3, 4], "patterns": "all of {S, A}^3 and {S, A}^4 (straight member first / in the middle / last / absent / several / all): "
+                         "S = drawn straight after the drawing transform (diameter, half-plane vertical or to infinity, radius > %g), A = arc of radius < %g" % (S_MIN, A_MAX),
+                         "pools": "all ordered pairs of the %d-point lattice (segments) / of the %d ideal directions (geodesics) and of their preimages under the drawing transform" % (len(pts), len(dirs)),
+                         "composites per pattern": R}, chunk=4)
 
     # points
     pc = []
@@ -1176,6 +1599,30 @@ def run(ctx):
     product("projective", "checks.c19:case_projective", prc,
                 domains={"charts": [0, 1, 2], "transforms": list(PTFS), "points": PL,
                          "objects": "points (single, composite), all ordered vertex triples%s, composites of two triangles, all ordered segments" % ("" if q else " and 4-tuples")}, chunk=2)
+
+    # projective polygons by negative / mixed-scale representatives, assume_affine True and False
+    rc = []
+    for chart in (0, 1, 2):
+        for tf in PTFS:
+            ok = [x for x in PL if proj_ok(tf, x)]
+            tuples = [list(c) for c in itertools.permutations(ok[:5] if q else ok, 3)]
+            if not q:
+                tuples += [list(c) for c in itertools.permutations(ok[:6], 4)]
+            for aa in (True, False):
+                items = projective_rep_items(tf, chart, aa, tuples, [ok[0:3], ok[1:4], ok[2:5]])
+                for s in range(0, len(items), 60):
+                    rc.append({"chart": chart, "tf": tf, "aa": aa, "items": items[s:s + 60]})
+    ctx.assume("assume_affine=False: the signs of the homogeneous representatives choose the projective segment between two vertices; "
+               "a polygon is demanded only if the chart coordinate (after the drawing transform) has one sign at all its vertices"
+               + (" and so has coordinate 0 (the library decides with Polygon.in_standard_chart, i.e. in chart 0, whatever the drawing's chart_index)" if NONAFF_CHART0_ONLY else "")
+               + "; for polygons that leave the chart nothing is demanded (they may be split or skipped)")
+    product("projective-representatives", "checks.c19:case_projective_reps", rc,
+                domains={"charts": [0, 1, 2], "transforms": list(PTFS), "assume_affine": [True, False],
+                         "polygons": "all ordered vertex triples of %s%s, the representative inside the chart" % (
+                             "the first 5 lattice points" if q else "the lattice", "" if q else " and 4-tuples of the first 6 points"),
+                         "scales": "per polygon LAMBDAS %s; per vertex uniform / |LAMBDAS| rotated / (assume_affine=True) LAMBDAS rotated" % lattice.LAMBDAS,
+                         "collections": "ordered pairs of 3 triangles x LAMBDAS^2; the 3 triangles in 3 cyclic orders x signs {+,-}^3 x moduli (1, 2.5, 0.3); "
+                                        "two triangles inside the chart (signs {+,-}^2) + one leaving it, listed first / in the middle / last"}, chunk=2)
 
     # wrong dimension
     wc = []
